@@ -3,6 +3,7 @@ from .. import catalogue, shapes, sym
 from ..spec import specmsg as sm, specwire as sw
 from .c01 import bounds
 
+WARMUP = True  # a concrete first use of the harness before each path (vf/explore.py: WarmEnv)
 PROPERTY = "C09"
 
 
